@@ -32,9 +32,9 @@ import (
 // U4 is poor: lpt only), U5 = stranger (poor).
 const (
 	communityCreator = -1 // model creator index of a pool created out of the community pool
-	nFarmers   = 4
-	maxPools   = 3
-	strangerID = 5
+	nFarmers         = 4
+	maxPools         = 3
+	strangerID       = 5
 )
 
 var (
@@ -67,11 +67,11 @@ type fop struct {
 	Totals []string `json:"totals,omitempty"` // create: budget; adjust: top-up ("" = none)
 	Sub    []fop    `json:"sub,omitempty"`    // burst: the pool creations executed in this one step
 	Rev    bool     `json:"rev,omitempty"`
-	Fee    string   `json:"fee,omitempty"`    // params: pool creation fee amount
-	FeeD   string   `json:"feed,omitempty"`   // params: pool creation fee denom
-	Tax    string   `json:"tax,omitempty"`    // params: tax rate (decimal text)
-	MaxRD  int      `json:"maxrd,omitempty"`  // params: max reward categories
-	Route  string   `json:"route,omitempty"`  // cpool: genesis | handler | refund    // adjust: send the coin lists in descending denom order (VERIF_C05_UNSORTED)
+	Fee    string   `json:"fee,omitempty"`   // params: pool creation fee amount
+	FeeD   string   `json:"feed,omitempty"`  // params: pool creation fee denom
+	Tax    string   `json:"tax,omitempty"`   // params: tax rate (decimal text)
+	MaxRD  int      `json:"maxrd,omitempty"` // params: max reward categories
+	Route  string   `json:"route,omitempty"` // cpool: genesis | handler | refund    // adjust: send the coin lists in descending denom order (VERIF_C05_UNSORTED)
 }
 
 type machine struct {
@@ -86,11 +86,11 @@ type machine struct {
 	maxRD int
 	// community pool (distribution FeePool.CommunityPool), integer amounts per denom; only this machine moves it
 	// (the distribution/mint blockers do not run)
-	cpool     map[string]*big.Int
-	probedMsg bool
+	cpool         map[string]*big.Int
+	probedMsg     bool
 	pendingInject *mpool
-	hasEscrow bool // the app registers farm's escrow_collector module account (needed by the proposal handlers)
-	nextProp  uint64
+	hasEscrow     bool // the app registers farm's escrow_collector module account (needed by the proposal handlers)
+	nextProp      uint64
 
 	avoidZeroStake, avoidZeroRPS, avoidRestartAtEnd bool
 	lowCat                                          bool
@@ -1091,9 +1091,6 @@ func (m *machine) applyBlockOpt(restart bool) error {
 			m.pools = append(m.pools, inject)
 			if len(m.pools) >= 10 {
 				m.class("pools>=10")
-			}
-			if viaSetters {
-				skip = true
 			}
 		}
 		switch {
